@@ -1,4 +1,4 @@
-import FcpptProofs.C11.Signal
+import FcpptProofs.C11.Iter
 set_option linter.unusedSimpArgs false
 set_option linter.unusedVariables false
 /-!
@@ -93,6 +93,142 @@ theorem list_live_iff {σ : Store} {R : Rings} (rep : Rep σ R) (k : Nat) :
     exact ⟨l, members_of_mem rep.wf hr⟩
   · rintro ⟨l, hl⟩
     exact rep.live_of_mem (mem_nodes.2 ⟨_, members_mem hl, by simp⟩)
+
+
+/-! ## Iterator objects (`intrusive/iterator_impl.hpp`) -/
+
+/-- **`++` and `--` are mutually inverse on every live position** (element hook, list head or orphan), and the
+position reached is alive again — an iterator that stands on a live node can be moved in both directions for ever
+without touching a destroyed node. -/
+theorem iter_inc_dec_inverse {σ : Store} {R : Rings} (rep : Rep σ R) {n : Node} (hn : n ∈ nodes R) :
+    (∃ m, m ∈ nodes R ∧ iterIncrement σ (some n) = .ok (some m) ∧ iterDecrement σ (some m) = .ok (some n)) ∧
+    (∃ m, m ∈ nodes R ∧ iterDecrement σ (some n) = .ok (some m) ∧ iterIncrement σ (some m) = .ok (some n)) := by
+  have inv := ringInv_of_rep rep n (rep.live_of_mem hn)
+  have hl := rep.live_of_mem hn
+  refine ⟨⟨σ.next n, rep.next_mem hn, iterIncrement_live hl, ?_⟩, ⟨σ.prev n, rep.prev_mem hn, iterDecrement_live hl, ?_⟩⟩
+  · rw [iterDecrement_live inv.1, inv.2.2.1]
+  · rw [iterIncrement_live inv.2.1, inv.2.2.2]
+
+/-- **Positions**: in a represented store, `begin() + i` stands on the `i`-th member of the list, `begin() + size`
+is `end()`; `end() - (i+1)` stands on the `i`-th member from the back, `end() - (size+1)` is `end()` again
+(`begin()`/`end()` of the const and the non-const overload have the same body). -/
+theorem iter_positions {σ : Store} {R : Rings} (rep : Rep σ R) {k : Nat} {l : List Node}
+    (hm : members R k = some l) :
+    (∀ i (hi : i < l.length), (listBegin σ (.head k) >>= iterAdvance σ i) = .ok (iterAt l[i])) ∧
+    (listBegin σ (.head k) >>= iterAdvance σ l.length) = .ok (listEnd (.head k)) ∧
+    (∀ i (hi : i < l.length), iterRetreat σ (i + 1) (listEnd (.head k)) = .ok (iterAt l[l.length - 1 - i])) ∧
+    iterRetreat σ (l.length + 1) (listEnd (.head k)) = .ok (listEnd (.head k)) := by
+  have hr := members_mem hm
+  have hring : Path σ (.head k) l (.head k) := rep.ring _ hr
+  have hlive : ∀ x ∈ Node.head k :: l, σ.live x = true := fun x hx => rep.live_of_mem (mem_nodes.2 ⟨_, hr, hx⟩)
+  have hb : ∀ n, (listBegin σ (.head k) >>= iterAdvance σ n) = iterAdvance σ (n + 1) (listEnd (.head k)) := by
+    intro n
+    simp [listBegin, listEnd, iterAdvance, iterIncrement, bind, Except.bind]
+  have fwd := iterAdvance_path hring hlive
+  have hflip : Path σ.flip (.head k) l.reverse (.head k) := Path_flip hring
+  have bwd := iterAdvance_path (σ := σ.flip) hflip (fun x hx => hlive x (by simp at hx ⊢; exact hx))
+  refine ⟨fun i hi => ?_, ?_, fun i hi => ?_, ?_⟩
+  · rw [hb, listEnd, fwd i (by simp; omega)]
+    simp [iterAt, List.getElem_append_left hi]
+  · rw [hb, listEnd, fwd l.length (by simp)]
+    simp
+  · rw [iterRetreat_flip, listEnd, bwd i (by simp; omega)]
+    have hi' : i < l.reverse.length := by simpa using hi
+    simp [iterAt, List.getElem_append_left hi', List.getElem_reverse]
+  · rw [iterRetreat_flip, listEnd, bwd l.length (by simp)]
+    simp
+
+/-- **Dereferencing** an iterator that stands on a member of a list yields that element (never a fault); `end()` and the
+default-constructed iterator are not dereferenceable. -/
+theorem iter_deref {σ : Store} {R : Rings} (rep : Rep σ R) {k : Nat} {l : List Node}
+    (hm : members R k = some l) :
+    (∀ n ∈ l, ∃ e, n = Node.elem e ∧ iterDeref σ (iterAt n) = .ok e) ∧
+    (∃ f, iterDeref σ (listEnd (.head k)) = .error f) ∧ (∃ f, iterDeref σ iterDefault = .error f) := by
+  have hr := members_mem hm
+  refine ⟨fun n hn => ?_, ⟨_, rfl⟩, ⟨_, rfl⟩⟩
+  obtain ⟨e, rfl⟩ := rep.wf.tail _ hr n hn
+  have := rep.live_of_mem (n := Node.elem e) (mem_nodes.2 ⟨_, hr, by simp [hn]⟩)
+  exact ⟨e, rfl, by simp [iterDeref, iterAt, this]⟩
+
+/-- **Equality of iterators is equality of positions**: `begin() + i == begin() + j` iff `i = j` (members are pairwise
+distinct), no `begin() + i` with `i < size` equals `end()`, and `empty()` is `begin() == end()` is "no members". -/
+theorem iter_equal {σ : Store} {R : Rings} (rep : Rep σ R) {k : Nat} {l : List Node}
+    (hm : members R k = some l) :
+    (∀ i j (hi : i < l.length) (hj : j < l.length), iterEqual (iterAt l[i]) (iterAt l[j]) = decide (i = j)) ∧
+    (∀ i (hi : i < l.length), iterEqual (iterAt l[i]) (listEnd (.head k)) = false) ∧
+    listEmpty σ (.head k) = .ok l.isEmpty ∧
+    (∀ b, listBegin σ (.head k) = .ok b → iterEqual b (listEnd (.head k)) = l.isEmpty) := by
+  have hr := members_mem hm
+  have nd := rep.wf.nodup _ hr
+  have hh : σ.live (.head k) = true := rep.live_of_mem (mem_nodes.2 ⟨_, hr, by simp⟩)
+  have hring : Path σ (.head k) l (.head k) := rep.ring _ hr
+  have hnext : σ.next (.head k) = (l ++ [Node.head k])[0]'(by simp) := by
+    cases l with
+    | nil => exact hring.1
+    | cons y ys => exact hring.1.1
+  have hne : ∀ i (hi : i < l.length), l[i] ≠ Node.head k := fun i hi e =>
+    (List.nodup_cons.1 nd).1 (e ▸ List.getElem_mem hi)
+  have hbe : (σ.next (.head k) == Node.head k) = l.isEmpty := by
+    cases l with
+    | nil => simp [hnext]
+    | cons y ys =>
+      have := hne 0 (by simp)
+      simp only [List.getElem_cons_zero] at this
+      simp [hnext, this]
+  refine ⟨fun i j hi hj => ?_, fun i hi => ?_, ?_, fun b hb => ?_⟩
+  · have := List.getElem_inj (h₀ := hi) (h₁ := hj) (List.nodup_cons.1 nd).2
+    simp only [iterEqual, iterAt, Option.some_beq_some]
+    by_cases e : i = j
+    · subst e; simp
+    · have : l[i] ≠ l[j] := fun h => e (this.1 h)
+      simp [e, this]
+  · simp [iterEqual, iterAt, listEnd, hne i hi]
+  · simp [listEmpty, rdNext, hh, bind, Except.bind, hbe]
+  · simp [listBegin, rdNext, hh, bind, Except.bind] at hb
+    subst hb
+    simpa [iterEqual, listEnd] using hbe
+
+/-- **Post-increment / post-decrement** (`fcppt::iterator::base`): the returned iterator is the old position, the
+iterator itself moves exactly like `++it` / `--it`. -/
+theorem iter_post_ops (σ : Store) (it : Iter) :
+    iterPostInc σ it = (iterIncrement σ it).map (fun it' => (it, it')) ∧
+    iterPostDec σ it = (iterDecrement σ it).map (fun it' => (it, it')) := by
+  constructor
+  · simp only [iterPostInc, bind, Except.bind, Except.map]
+  · simp only [iterPostDec, bind, Except.bind, Except.map]
+
+/-- **An iterator kept across operations stays usable as long as its node lives**: after any valid history, an iterator
+standing on any live node (however it was obtained, before whatever operations) can be incremented and decremented, and
+lands on a live node; if it stands on a member of list `k` at index `i`, then `size - i` increments reach `end()`. -/
+theorem iter_survives_history (ops : List Op) (hv : validRun [] ops = true) {σ' : Store}
+    (hrun : run Store.empty ops = .ok σ') {n : Node} (hn : σ'.live n = true) :
+    (∃ m, σ'.live m = true ∧ iterIncrement σ' (some n) = .ok (some m)) ∧
+    (∃ m, σ'.live m = true ∧ iterDecrement σ' (some n) = .ok (some m)) ∧
+    (∀ k l i (hi : i < l.length), members (Spec.run [] ops) k = some l → l[i] = n →
+      iterAdvance σ' (l.length - i) (some n) = .ok (listEnd (.head k))) := by
+  obtain ⟨σ'', h, rep⟩ := history_rep Rep_empty ops hv
+  rw [hrun] at h; cases h
+  have hm := (rep.live n).1 hn
+  obtain ⟨⟨m1, a1, b1, _⟩, ⟨m2, a2, b2, _⟩⟩ := iter_inc_dec_inverse rep hm
+  refine ⟨⟨m1, rep.live_of_mem a1, b1⟩, ⟨m2, rep.live_of_mem a2, b2⟩, ?_⟩
+  intro k l i hi hmem hli
+  -- split the ring at position i: the rest of the path from l[i] to the head
+  have hr := members_mem hmem
+  have hring : Path σ' (.head k) l (.head k) := rep.ring _ hr
+  have hsplit : l = l.take i ++ l[i] :: l.drop (i + 1) := by
+    rw [← List.drop_eq_getElem_cons hi, List.take_append_drop]
+  rw [hsplit] at hring
+  have hrest := (Path_append.1 hring).2
+  have hlive : ∀ x ∈ l[i] :: l.drop (i + 1), σ'.live x = true := fun x hx =>
+    rep.live_of_mem (n := x) (mem_nodes.2 ⟨_, hr, by
+      rcases List.mem_cons.1 hx with e | e
+      · rw [e]; exact List.mem_cons_of_mem _ (List.getElem_mem hi)
+      · exact List.mem_cons_of_mem _ (List.mem_of_mem_drop e)⟩)
+  have := iterAdvance_path hrest hlive (l.drop (i + 1)).length (by simp)
+  rw [← hli]
+  have hlen : l.length - i = (l.drop (i + 1)).length + 1 := by simp; omega
+  rw [hlen, this]
+  simp [listEnd]
 
 /-! ### non-vacuity and the abstract operations on a concrete history -/
 
@@ -275,6 +411,25 @@ theorem call_invokes_live_once_in_order {st : Sig.State} {R : Rings} (h : SRep s
   · rw [h1] at hnd; exact nodup_of_map_elem hnd
   · simp only [Sig.invoked, walk_members h.rep hm hf, bind, Except.bind]
     exact h3
+
+/-- **The void specialisation** `object<void(Args...), Base>::operator()` (a range-`for` over `connections()` instead of a
+fold): the loop terminates, touches no dead connection and invokes exactly the callbacks of the live connections of the
+signal, once each, in connection order — the same list `Sig.invoked` that the fold of the non-void signal runs over. -/
+theorem callVoid_invokes_live_once_in_order {st : Sig.State} {R : Rings} (h : SRep st R) {s : Nat} {l : List Node}
+    (hm : members R s = some l) {fuel : Nat} (hf : l.length ≤ fuel) :
+    ∃ (xs : List Nat) (cs : List Sig.Conn), l = xs.map Node.elem ∧ xs.Nodup ∧ xs.map st.conn = cs.map some ∧
+      Sig.callVoid st s fuel = .ok (cs.map (·.callback)) ∧ Sig.callVoid st s fuel = Sig.invoked st s fuel := by
+  obtain ⟨xs, cs, h1, h2, h3, h4⟩ := call_invokes_live_once_in_order h hm hf
+  have hr := members_mem hm
+  have hring : Path st.store (.head s) l (.head s) := h.rep.ring _ hr
+  have nd := h.rep.wf.nodup _ hr
+  have hh : st.store.live (.head s) = true := h.rep.live_of_mem (mem_nodes.2 ⟨_, hr, by simp⟩)
+  have key : Sig.callVoid st s fuel = .ok (cs.map (·.callback)) := by
+    subst h1
+    have := callVoidFrom_path (st := st) (h := .head s) (cs := cs) (fuel := fuel) [] hring
+      (fun x hx => h.rep.live_of_mem (mem_nodes.2 ⟨_, hr, by simp [hx]⟩)) h3 (List.nodup_cons.1 nd).1 (by simpa using hf)
+    simpa [Sig.callVoid, rdNext, hh, bind, Except.bind] using this
+  exact ⟨xs, cs, h1, h2, h3, key, by rw [key, h4]⟩
 
 /-- **The result of a call is the left fold of the combiner over the callback results, starting from
 the initial value** (`fs` = the callbacks invoked; with no connection the initial value is returned and
